@@ -51,6 +51,16 @@ theorem aabb_takePoint_contains (b : Aabb3 K) (p q : V3 K) :
     exact ⟨⟨le_trans (min_le_left _ _) h1, le_trans h2 (le_max_left _ _)⟩, ⟨le_trans (min_le_left _ _) h3, le_trans h4 (le_max_left _ _)⟩,
       le_trans (min_le_left _ _) h5, le_trans h6 (le_max_left _ _)⟩
 
+/-- `take_point` on the invalid sentinel box (`+MAX, −MAX`) gives the one-point box — how `Aabb::from_points` and the
+composite constructors start. -/
+theorem aabb_takePoint_invalid (rmax : K) (p : V3 K)
+    (hx : -rmax ≤ p.x ∧ p.x ≤ rmax) (hy : -rmax ≤ p.y ∧ p.y ≤ rmax) (hz : -rmax ≤ p.z ∧ p.z ≤ rmax) :
+    letI := fieldNum K sq
+    (Aabb3.invalid rmax).takePoint p = ⟨p, p⟩ := by
+  obtain ⟨x, y, z⟩ := p
+  simp only [Aabb3.takePoint, Aabb3.invalid, V3.inf, V3.sup, fieldNum_nmin, fieldNum_nmax, Aabb3.mk.injEq, V3.mk.injEq]
+  exact ⟨⟨min_eq_right hx.2, min_eq_right hy.2, min_eq_right hz.2⟩, max_eq_right hx.1, max_eq_right hy.1, max_eq_right hz.1⟩
+
 /-! ## HeightField box: exact -/
 
 private theorem foldl_max_attained (hs : List K) : ∀ acc : K, hs.foldl (fun a b => max a b) acc = acc ∨ hs.foldl (fun a b => max a b) acc ∈ hs := by
